@@ -62,7 +62,7 @@ func TestC12(t *testing.T) {
 	c.Floor("open_while_counterparty_moved_on", 3)
 	c.Floor("history_crosschecked", 120)
 	prof := Profile{Init: 12, Crossing: 4, Honest: 36, Mutated: 26, WrongTarget: 10, Replay: 5, Close: 5, DupPct: 15}
-	n := c.N(20, 45)
+	n := c.N(22, 45)
 	for i := 0; i < n; i++ {
 		if c.SkipCase(i) {
 			continue
@@ -116,7 +116,7 @@ func TestC13(t *testing.T) {
 	c.Floor("history_crosschecked", 160)
 	pureVersions(c)
 	prof := Profile{Init: 14, Crossing: 5, Honest: 36, Mutated: 28, WrongTarget: 10, Replay: 7, DupPct: 15}
-	n := c.N(20, 45)
+	n := c.N(22, 45)
 	for i := 0; i < n; i++ {
 		if c.SkipCase(i) {
 			continue
